@@ -22,7 +22,7 @@ import (
 func TestMain(m *testing.M) { stat.Main(m) }
 
 func auxBytes(t *rapid.T) ([]byte, string) {
-	kind := rapid.SampledFrom([]string{"zeros", "ones", "drawn", "drawn"}).Draw(t, "auxkind")
+	kind := gen.Sampled([]string{"zeros", "ones", "drawn", "drawn"}).Draw(t, "auxkind")
 	a := make([]byte, 32)
 	switch kind {
 	case "ones":
@@ -55,15 +55,36 @@ func propSign(t *rapid.T) {
 	dPrime := gen.NonZero256(t, ref.N, "d")
 	aux, ak := auxBytes(t)
 	msg := gen.Message(t, "msg")
-	route := rapid.SampledFrom([]string{"bytes", "from-ecdsa"}).Draw(t, "route")
+	route := gen.Sampled([]string{"bytes", "from-ecdsa", "from-ecdsa-scalar", "bytes-then-scrub"}).Draw(t, "route")
 	var key *bitcoin.SchnorrPrivateKey
 	var err error
-	if route == "bytes" {
-		key, err = bitcoin.NewSchnorrPrivateKey(ref.B32(dPrime))
+	switch route {
+	case "bytes", "bytes-then-scrub":
+		raw := ref.B32(dPrime)
+		key, err = bitcoin.NewSchnorrPrivateKey(raw)
 		if err != nil {
 			t.Fatalf("NewSchnorrPrivateKey(%x): %v", dPrime, err)
 		}
-	} else {
+		if route == "bytes-then-scrub" { // the caller wipes what it passed in and what it was handed
+			for _, b := range [][]byte{raw, key.Bytes(), key.PublicKey().Bytes()} {
+				for i := range b {
+					b[i] = 0
+				}
+			}
+			key.Scalar().Negate(key.Scalar())
+			key.PublicKey().Point().Identity()
+		}
+	case "from-ecdsa-scalar":
+		// ECDSA key built from a scalar the caller keeps using, Schnorr key derived from it afterwards
+		sc := lib.Sc(dPrime)
+		ek, e := secec.NewPrivateKeyFromScalar(sc)
+		if e != nil {
+			t.Fatalf("NewPrivateKeyFromScalar(%x): %v", dPrime, e)
+		}
+		sc.Add(sc, sc) // 2d != 0
+		key = bitcoin.NewSchnorrPrivateKeyFromECDSA(ek)
+		sc.Negate(sc)
+	default:
 		key = bitcoin.NewSchnorrPrivateKeyFromECDSA(lib.PrivKey(dPrime))
 	}
 	P := ref.BaseMul(dPrime)
@@ -71,7 +92,7 @@ func propSign(t *rapid.T) {
 	if !ok {
 		t.Skip("k' = 0")
 	}
-	delivery := rapid.SampledFrom([]string{"whole", "1-byte", "chunks", "extra"}).Draw(t, "delivery")
+	delivery := gen.Sampled([]string{"whole", "1-byte", "chunks", "extra"}).Draw(t, "delivery")
 	rd := &gen.ScriptedReader{Data: append([]byte(nil), aux...), FailAfter: -1}
 	switch delivery {
 	case "1-byte":
@@ -126,6 +147,7 @@ func propAuxFailure(t *rapid.T) {
 	j := rapid.IntRange(0, 33).Draw(t, "j")
 	msg := gen.Bytes(t, 0, 64, "msg")
 	rd := &gen.ScriptedReader{Data: gen.Bytes(t, 40, 40, "aux"), FailAfter: j}
+	rd.Err, rd.ErrWithData, _ = gen.FailureKind(t, "fail")
 	if rapid.Bool().Draw(t, "chunked") {
 		rd.Chunks = rapid.SliceOfN(rapid.IntRange(1, 33), 1, 4).Draw(t, "chunks")
 	}
@@ -148,7 +170,7 @@ func TestC14_AuxFailure(t *testing.T) { rapid.Check(t, propAuxFailure) }
 // propKeys: Schnorr key pairs from any route expose the even-y point.
 func propKeys(t *rapid.T) {
 	pc := gen.Point(t, "pt")
-	route := rapid.SampledFrom([]string{"from-point", "from-point-derived", "from-ecdsa-pub", "x-only"}).Draw(t, "route")
+	route := gen.Sampled([]string{"from-point", "from-point-derived", "from-ecdsa-pub", "x-only"}).Draw(t, "route")
 	p := pc.P
 	cl := []string{"route:" + route, "pt:" + pc.Desc}
 	if p.Inf {
